@@ -1,6 +1,7 @@
 package main
 
 import (
+	"go/types"
 	"strings"
 
 	"golang.org/x/tools/go/ssa"
@@ -36,39 +37,38 @@ func propC15(a *Analysis, r *Registry) {
 		env := X.EnvFor(fn, "xs", "ys", "weights", "degree")
 		nterms := 0
 		b.guard(rB, name+"/basis", func() {
-			fc.Ctx.Instrs(func(in ssa.Instruction) {
-				st, ok := in.(*ssa.Store)
-				if !ok {
-					return
-				}
-				var cf *ssa.Function
-				switch v := st.Val.(type) {
-				case *ssa.MakeClosure:
-					cf = v.Fn.(*ssa.Function)
-				case *ssa.Function:
-					cf = v
-				default:
-					return
-				}
-				ia, ok := st.Addr.(*ssa.IndexAddr)
-				if !ok {
-					return
-				}
-				nterms++
-				idx := fc.Val(ia.Index)
-				construct := name + "/basis/" + a.W.FuncName(cf)
-				deg, msg := basisDegree(X, cf)
-				if deg == nil {
-					r.Fail(rB, construct, b.pos(cf), msg)
-					return
-				}
-				if deg.Equal(idx) {
-					r.OK(rB, construct, b.pos(cf), "fills termOut[i] with xs[i]^("+clip(deg.String(), 60)+") and is stored at terms["+clip(idx.String(), 60)+"]")
-				} else {
-					r.Fail(rB, construct, b.pos(cf), "the function stored at terms["+clip(idx.String(), 60)+"] computes the monomial of degree "+clip(deg.String(), 60)+": Coefficients[i] would not multiply x^i")
-				}
-			})
-			r.Floor(rB, "basis functions checked", nterms, 4)
+			// the basis functions are stored here or by a helper that builds the slice; a stored value
+			// may be a closure or the result of a factory that picks a closure by the degree
+			for _, sfc := range fc.BoundCallees(1) {
+				sfc := sfc
+				sfc.Ctx.Instrs(func(in ssa.Instruction) {
+					st, ok := in.(*ssa.Store)
+					if !ok {
+						return
+					}
+					ia, ok := st.Addr.(*ssa.IndexAddr)
+					if !ok {
+						return
+					}
+					if _, isFn := st.Val.Type().Underlying().(*types.Signature); !isFn {
+						return
+					}
+					nterms++
+					idx := sfc.Val(ia.Index)
+					construct := name + "/basis/terms[" + clip(idx.String(), 40) + "]"
+					deg, msg := basisDegreeOf(X, sfc.Val(st.Val))
+					if deg == nil {
+						r.Fail(rB, construct, a.W.InstrPos(st), msg)
+						return
+					}
+					if deg.Equal(idx) || X.EquivByCases(deg, idx, 0) {
+						r.OK(rB, construct, a.W.InstrPos(st), "fills termOut[i] with xs[i]^("+clip(deg.String(), 60)+") and is stored at terms["+clip(idx.String(), 60)+"]")
+					} else {
+						r.Fail(rB, construct, a.W.InstrPos(st), "the function stored at terms["+clip(idx.String(), 60)+"] computes the monomial of degree "+clip(deg.String(), 60)+": Coefficients[i] would not multiply x^i")
+					}
+				})
+			}
+			r.Floor(rB, "basis functions checked", nterms, 2)
 			// len(terms) = degree+1
 			if at := fc.Val(fc.TheCallTo("fit.LinearLeastSquares").Call.Args[3]).SingleAtom(); at != nil && strings.HasPrefix(at.Name, "makeslice:") {
 				b.Eq(rB, name+"/len(terms)", b.pos(fn), at.Args[0], env, "degree+1")
@@ -88,16 +88,25 @@ func propC15(a *Analysis, r *Registry) {
 				r.Fail(rB, name+"/F", b.pos(fn), "F is not the evaluator closure")
 				return
 			}
-			mc := X.cloFn[at.ID]
-			ef := mc.Fn.(*ssa.Function)
-			efc := X.FCFor(ef)
-			eenv := X.EnvFor(ef, "x")
-			eenv.Set("coeffs", fc.Val(call), call.Type())
+			efc := X.ClosureFC(at.ID)
+			ef := efc.Fn
 			rv := efc.RetVal(0)
-			c, ci := efc.elemOf(rv, eenv.MustParse("slice(coeffs, 1, _, _)"))
-			eenv.Set("c", c, nil)
-			_ = ci
-			b.LoopSystem(rB, name+"/F/recurrences", b.pos(ef), efc, rv, eenv, []recSpec{{"y", "coeffs[0]", "y+xp*c"}, {"xp", "x", "xp*x"}})
+			b.AnyOf(func() {
+				// for _, c := range coeffs[1:]
+				eenv := X.EnvFor(ef, "x")
+				eenv.Set("coeffs", fc.Val(call), call.Type())
+				c, _ := efc.elemOf(rv, eenv.MustParse("slice(coeffs, 1, _, _)"))
+				eenv.Set("c", c, nil)
+				b.LoopSystem(rB, name+"/F/recurrences", b.pos(ef), efc, rv, eenv, []recSpec{{"y", "coeffs[0]", "y+xp*c"}, {"xp", "x", "xp*x"}})
+			}, func() {
+				// for k := 1; k < len(coeffs); k++ { … coeffs[k] … }
+				eenv := X.EnvFor(ef, "x")
+				eenv.Set("coeffs", fc.Val(call), call.Type())
+				c, ci := efc.elemOf(rv, eenv.MustParse("coeffs"))
+				eenv.Set("c", c, nil)
+				b.LoopSystem(rB, name+"/F/recurrences", b.pos(ef), efc, rv, eenv, []recSpec{{"y", "coeffs[0]", "y+xp*c"}, {"xp", "x", "xp*x"}})
+				b.FullScan("C-scan coverage", name+"/F/visits coeffs[1:]", b.pos(ef), efc, ci.Sub(S.Int(1)), eenv.MustParse("len(coeffs)-1"))
+			})
 		})
 	}
 
@@ -415,11 +424,40 @@ func propC15(a *Analysis, r *Registry) {
 }
 
 // basisDegree: the degree e such that cf fills termOut[i] with xs[i]^e.
-func basisDegree(X *Extractor, cf *ssa.Function) (*RF, string) {
+// basisDegreeOf: the degree of the monomial a function value computes: a
+// closure, or a choice among closures (a factory selecting by the degree).
+func basisDegreeOf(X *Extractor, v *RF) (*RF, string) {
+	at := v.SingleAtom()
+	if at == nil {
+		return nil, "stored basis function is not a function value: " + clip(v.String(), 120)
+	}
+	if at.Name == "ite" && len(at.Args) == 3 {
+		d1, m1 := basisDegreeOf(X, at.Args[1])
+		if d1 == nil {
+			return nil, m1
+		}
+		d2, m2 := basisDegreeOf(X, at.Args[2])
+		if d2 == nil {
+			return nil, m2
+		}
+		return X.S.Ite(at.Args[0], d1, d2), ""
+	}
+	if cfc := X.ClosureFC(at.ID); cfc != nil {
+		return basisDegree(X, cfc)
+	}
+	if strings.HasPrefix(at.Name, "func:") {
+		if f := X.W.Fn(strings.TrimPrefix(at.Name, "func:")); f != nil {
+			return basisDegree(X, X.FCFor(f))
+		}
+	}
+	return nil, "stored basis function is not a closure of this package: " + clip(v.String(), 120)
+}
+
+func basisDegree(X *Extractor, fc *FC) (*RF, string) {
+	cf := fc.Fn
 	if len(cf.Params) != 2 {
 		return nil, "basis function does not have the (xs, termOut) signature"
 	}
-	fc := X.FCFor(cf)
 	xs, out := X.ParamRF(cf, 0), X.ParamRF(cf, 1)
 	var deg *RF
 	msg := "basis function does not fill termOut"
